@@ -270,7 +270,7 @@ CHECKS["C05"] = {
              "Oracle per fault run (flush mode): no scripted call is still inside the library at quiescence; the call whose own transport write failed returns an error; sends/invokes/new-streams issued after the failure fail; "
              "Closed() is closed and ServeOne has returned; no library goroutine remains; each transport closed at most once; every message delivered before the failure is a correct prefix on the right stream. "
              "Each fault run is one evaluation (sub-check fault_at_k); non-trivial = the fault actually fired. Distinct by (end, k, kind, trace, workload). " 
-             "write_only: after 0..2 undisturbed calls only the send direction of the client transport fails (plain error, an error wrapping io.EOF, io.ErrClosedPipe) while its reads stay pending; the unary Invoke or stream send that hits the failing write must return an error instead of waiting."),
+             "write_only: after 0..2 undisturbed calls only the send direction of the client transport fails (plain error, an error wrapping io.EOF, io.ErrClosedPipe) while its reads stay pending; the unary Invoke, NewStream or stream send that hits the failing write must return an error instead of waiting, and when that ended the call (Invoke, NewStream) a further call must not queue up behind it; or only the send direction of the server transport fails: the server must give the connection up and the client's call ends."),
     "assumptions": E3_ASSUME + ["fault model: once a transport end has failed, that call and every pending and later I/O call on that end fails (a dead socket); a write that fails once and then works again is not generated",
                                 "a receive issued after the failure may still return messages that reached that side before it; only absence of hangs and prefix correctness are demanded of receives"],
     "subs": [
